@@ -53,6 +53,8 @@ mutual
     | raise
     | abort                                       -- raise a BaseException that is not an Exception
     | catch (body : Acts)                         -- try: body  except <that BaseException>: pass
+    | gcm (hook : Acts)                           -- extract_child of a frame holding a @contextmanager whose generator holds a
+                                                  -- manager with a hook: reached through the contextlib glue (extract_child again)
   /-- The actions of one hook invocation, in order. -/
   inductive Acts
     | nil
@@ -106,6 +108,16 @@ mutual
     | .catch body, c =>
         let r := evalActs body c
         ⟨r.cell, r.events ++ (if r.aborted then [.caught] else []), r.raised, false⟩
+    | .gcm hook, c =>
+        match c.rc with
+        | none => ⟨c, [.refused], true, false⟩
+        | some _ =>
+          -- contexts (and so the manager inside the generator) are only looked at when with_contexts is on; the hook runs
+          -- under the *current* options: nothing is pushed on the way down
+          if c.wc == some true then
+            let r := evalActs hook c          -- one hook invocation: an ordinary exception is contained, a BaseException is not
+            ⟨r.cell, [.full] ++ r.events, false, r.aborted⟩
+          else ⟨c, [.full], false, false⟩
   /-- A hook body: stop at the first action that raises or aborts. -/
   def evalActs : Acts → Cell → Res
     | .nil, c => ⟨c, [], false, false⟩
